@@ -590,6 +590,81 @@ def run_script_reuse(case):
             "sample": {"uses": uses, "script_units": usys}}
 
 
+def heap_in_use():
+    """bytes the C allocator has handed out and not got back (main arena + mmapped blocks): what C++ new, numpy and
+    ctypes buffers live in; Python's small-object arenas are not part of it"""
+    import ctypes
+    libc = ctypes.CDLL("libc.so.6")
+
+    class MI(ctypes.Structure):
+        _fields_ = [(n_, ctypes.c_size_t) for n_ in "arena ordblks smblks hblks hblkhd usmblks fsmblks uordblks fordblks keepcost".split()]
+    libc.mallinfo2.restype = MI
+    m = libc.mallinfo2()
+    return int(m.uordblks) + int(m.hblkhd)
+
+
+def run_release_cycles(case):
+    """'Releasing an engine ... and a new set-up afterwards starts from a clean slate', observed on the allocator: after a
+    warm-up, N further set-up / iterate / fetch / release cycles of the same script must not leave the process holding more
+    and more memory.  The monitor reads the allocator's in-use byte count (mallinfo2) and Python's traced allocations after
+    each window of cycles; a violation is growth in BOTH of two consecutive windows by more than a quarter of one state
+    array per cycle and more than 48 kB (a real leak of per-cell tables is 6-40 state arrays per cycle)."""
+    use_repo()
+    engines.install()
+    import gc
+    import tracemalloc
+    import strengths as st
+    r = gen.rng_for(case["seed"], "C10leak", case["idx"])
+    kind_ = case["kind"]
+    ns = r.randint(2, 5)
+    ncell = r.choice([1000, 1728, 4096]) if case["space"] == "grid" else r.choice([200, 300])   # (a graph script costs ~5 ms per node to copy)
+    sp = [st.Species("S%d" % i, D=r.choice([0, 1e-3]), density=0) for i in range(ns)]
+    rx = [st.Reaction("S0 -> S1", kf=1e-3)] + ([st.Reaction("S0 + S1 -> S%d" % (ns - 1), kf=1e-6)] if ns > 2 else [])
+    net = st.RDNetwork(sp, rx)
+    if case["space"] == "grid":
+        w = round(ncell ** (1 / 3))
+        space = st.RDGridSpace(w=w, h=w, d=w)
+        ncell = w ** 3
+    else:
+        space = st.RDGraphSpace([st.RDGraphSpaceNode() for _ in range(ncell)], [st.RDGraphSpaceEdge(i, (i + 1) % ncell) for i in range(ncell)])
+    state = [float(r.randint(0, 20)) for _ in range(ns * ncell)]
+    system = st.RDSystem(net, space, state=state)
+    script = st.RDScript(system, t_sample=[0, 1e-3], t_max=2e-3, time_step=1e-3, sampling_policy="on_t_sample", rng_seed=3)
+    eng = engines.get(kind_)
+    state_bytes = 8 * ns * ncell
+
+    def cycle():
+        eng.setup(script)
+        eng.iterate_n(2)
+        o = eng.get_output()
+        eng.finalize()
+        del o
+
+    for _ in range(3):
+        cycle()
+    per = case["cycles"]
+    tracemalloc.start()
+    marks = []
+    for w_ in range(3):
+        gc.collect()
+        marks.append((heap_in_use(), tracemalloc.get_traced_memory()[0]))
+        if w_ < 2:
+            for _ in range(per):
+                cycle()
+    tracemalloc.stop()
+    g1, g2 = marks[1][0] - marks[0][0], marks[2][0] - marks[1][0]
+    p1, p2 = marks[1][1] - marks[0][1], marks[2][1] - marks[1][1]
+    lim = max(0.25 * state_bytes * per, 49152.0)
+    bad = []
+    if (g1 > lim and g2 > lim) or (p1 > lim and p2 > lim):
+        bad.append({"what": "memory held by the process grows with every set-up / release cycle", "engine": kind_, "space": case["space"],
+                    "cells": ncell, "species": ns, "cycles_per_window": per, "state_array_bytes": state_bytes,
+                    "allocator_growth_per_window": [g1, g2], "python_traced_growth_per_window": [p1, p2], "limit_per_window": lim})
+    return {"bad": bad, "counts": {"release_cycles_observed": 2 * per + 3}, "key": chash(["leak", kind_, case["space"], ns, ncell]),
+            "nontrivial": True, "sample": {"engine": kind_, "space": case["space"], "cells": ncell, "species": ns,
+                                           "allocator_growth_per_window": [g1, g2], "python_traced_growth_per_window": [p1, p2], "limit": lim}}
+
+
 def run_fixed_step_count(case):
     use_repo()
     engines.install()
@@ -888,6 +963,10 @@ def main():
         # ---------------- (F) one script object handed to several engines ----------------
         from vf.sandbox import run_extra as _run_extra
         _run_extra(run, "vf.checks.c10:run_script_reuse", [{"seed": sd, "idx": i} for i in range(1500 if thorough else 150)], cpu_budget=60)
+        # ---------------- (G) repeated set-up / release cycles under an allocator monitor ----------------
+        casesG = [{"seed": sd, "idx": i, "kind": engines.KINDS[i % 3], "space": ["grid", "graph"][(i // 3) % 2], "cycles": 12 if thorough else 6}
+                  for i in range(24 if thorough else 6)]
+        _run_extra(run, "vf.checks.c10:run_release_cycles", casesG, cpu_budget=300, fresh=True)
         # ---------------- (E) tau-leap at extreme propensities ----------------
         casesE = [{"name": "control lambda=1e17", "kf": 1.0, "amount": 3.2e9, "lambda": 1e17},
                   {"name": "lambda=2.5e21 (>= 2^63)", "kf": 1.0, "amount": 5e11, "lambda": 2.5e21},
